@@ -698,18 +698,30 @@ def execute(prop, scen):
                 check_not_fitted(v, res, c2, kind, data, NotFittedError, cloned=True)
             elif op == "update_fitted":
                 # apply-type / update calls on the fitted object never touch constructor parameters
-                if not fitted or not hasattr(est, "update") or kind not in ("forecaster", "series-transformer"):
+                if not fitted or kind not in ("forecaster", "series-transformer"):
                     continue
                 before = {k_: param_digest(x) for k_, x in est.get_params(deep=False).items()}
-                try:
-                    call_method(est, kind, "update", data)
-                except Exception:
+                # (update where there is one; transform / predict in any case)
+                called = 0
+                for m_ in ("update", "transform", "predict"):
+                    if hasattr(est, m_) and (m_ != "transform" or kind == "series-transformer"):
+                        try:
+                            if m_ == "transform" and name == "Imputer":
+                                zz_ = data["z"].copy()
+                                zz_.iloc[3] = np.nan     # something to impute
+                                est.transform(zz_)
+                            else:
+                                call_method(est, kind, m_, data)
+                            called += 1
+                        except Exception:
+                            pass
+                if not called:
                     continue
                 res.probe("params_after_update_checked")
                 after = est.get_params(deep=False)
                 for k_ in before:
                     if k_ not in after or param_digest(after[k_]) != before[k_]:
-                        v("param_changed_by_update", "constructor parameter %r changed during update: "
+                        v("param_changed_by_update", "constructor parameter %r changed during update / apply calls: "
                           "%s -> %s" % (k_, _brief(before[k_]), _brief(param_digest(after.get(k_)))),
                           param=k_)
                         break
